@@ -515,6 +515,33 @@ func c10Encode(c *core.Ctx, k *core.Case) {
 	if !reflect.DeepEqual(obj, snap) {
 		c.Fail(k, "encode-mutates-message:"+def.Name+"."+firstDiff(def, snap, obj), "message differs from its deep snapshot after the second encode")
 	}
+	// the slice PlainNasEncode returns must not share memory with the message either
+	if def.MsgType != nil {
+		if m, err := wrapMsg(def, obj, k.B[0][:def.HeaderLen()]); err == nil {
+			if res, err := m.PlainNasEncode(); err == nil {
+				snapRes := cloneB(res)
+				flip := func() {
+					walkBytes(reflect.ValueOf(obj), func(v reflect.Value) {
+						b := v.Bytes()
+						for i := range b {
+							b[i] ^= 0xff
+						}
+					})
+				}
+				flip()
+				if !bytes.Equal(res, snapRes) {
+					c.Fail(k, "encoded-bytes-alias-message:"+def.Name, "mutating the message after PlainNasEncode changed the returned bytes")
+				}
+				flip()
+				for i := range res {
+					res[i] ^= 0xff
+				}
+				if !reflect.DeepEqual(obj, snap) {
+					c.Fail(k, "encoded-bytes-alias-message:"+def.Name, "mutating the bytes returned by PlainNasEncode changed the message")
+				}
+			}
+		}
+	}
 	// the message must not share memory with the produced bytes
 	walkBytes(reflect.ValueOf(obj), func(v reflect.Value) {
 		b := v.Bytes()
